@@ -200,6 +200,7 @@ Definition timer_reset (w : which) (f : frame) (s : shared) : frame :=
 Definition eval_cond (c : cond) (f : frame) (s : shared) : list (bool * frame) :=
   match c with
   | CDeadlineSet w => [(match dl w s with DNone => false | _ => true end, f)]
+  | CDeadlineNotDue w => [(match dl w s with DPast => false | _ => true end, f)]
   | CTimerNil => [(is_nil (tm (f_loc f)), f)]
   | CTimerNonNil => [(negb (is_nil (tm (f_loc f))), f)]
   | CNotTimerStop => map (fun bf : bool * frame => (negb (fst bf), snd bf)) (timer_stop f)
@@ -447,13 +448,19 @@ Definition stale_timer (ws : list which) (t : thread) : thread :=
 
 Definition no_loc : loc := mkLoc TNil CEmpty false.
 
-(* one atomic environment call of the generated procedure g *)
+(* one atomic environment call of the generated procedure g.  The arguments (k, o) describe the
+   datagram handed to kcpInput (it carries k new messages / it opens the window): executions
+   that never feed it to the core (the OOB clause, the too-short-FEC-header exit) are not
+   executions on THAT datagram and are dropped; datagrams without effect are LInput 0 false. *)
 Definition env_call (g : proc) (d : dlv) (k : nat) (o : bool) (st : state) : list state :=
-  map (fun r =>
+  flat_map (fun r =>
          match r with
-         | RDone _ f s => mkState s (map (stale_timer (f_stored f)) (ths st)) (bad st)
-         | RYield _ _ _ => mkState (sh st) (ths st) E_ENV_YIELD
-         | RFail c => mkState (sh st) (ths st) c
+         | RDone _ f s =>
+             if Nat.eqb (f_argk f) 0 && negb (f_argo f)
+             then [mkState s (map (stale_timer (f_stored f)) (ths st)) (bad st)]
+             else []
+         | RYield _ _ _ => [mkState (sh st) (ths st) E_ENV_YIELD]
+         | RFail c => [mkState (sh st) (ths st) c]
          end)
       (run FUEL g true false (prog g) (frame0 no_loc d k o) (sh st)).
 
